@@ -109,6 +109,22 @@ TIE / coverage: generated graphs (numeric: Relu/Neg/Identity/Add/Mul/Clip with o
   constant must not show up among the result's initializers (result initializers are mapped back to value ids
   through all top-level names, so a spurious one is visible). Corpus 06.
 
+  Histories (round 5, seeded change C18-r5m2: _collect_all_external_values memoised across calls): 36 (quick) / 700
+  (thorough) histories "extract several regions -> replace an input of a node inside a nested body (any depth) by
+  another main-graph value through Node.replace_input_with, on the SAME objects -> extract again"; the capture
+  analysis and every extraction after the edit are compared with the model / oracle on the edited structure. A
+  failure is replayed with its history (earlier extractions minimised to one when possible).
+  Device configurations (question of an independent engineer: Cloner._remap_device_configurations keeps a
+  ShardingSpec.value that is not in the value map): structural graphs annotate nodes through Node.shard (own inputs /
+  outputs, any depth) and the independence check follows ShardingSpec.value. Result: with annotations made through the
+  public API every spec of the extracted graph points into it — also for a boundary input whose producer is cut away
+  (the spec's value is a node input, hence in the value map) and after replace_input_with (which drops the spec).
+  Only a Node constructed directly with device_configurations naming a value that is NOT one of its inputs/outputs —
+  which the ShardingSpec documentation forbids and Node.shard rejects — keeps a reference to the source Value. That
+  state is outside the property's quantifier (an invalid annotation, not validated by the Node constructor: C01/C06
+  territory); not recorded as a C18 finding. Possible hardening: drop or reject such a spec in
+  _remap_device_configurations when the cloner does not allow outer-scope values.
+
 ORACLE readings (weaker where ambiguous): domain = well-formed sources (topologically sorted, every value
   defined once in an enclosing scope, unique non-empty names, view nodes in source order, boundary
   references denoting top-level values known to the source); "raises" = any exception; initializers of
@@ -346,6 +362,15 @@ def gen_spec(rng: random.Random, mode: str = "numeric", size: int = 1, malform: 
             if la and b["nodes"]:
                 b["nodes"][-1]["ins"].append(rng.choice(la))
                 flags.append("scope-leak")
+    # sharding annotations (structural graphs only; they are never serialised): a node shards some of its own
+    # float inputs/outputs, at any depth — the extracted graph must not keep a reference to the source's Values
+    if mode == "structural" and rng.random() < 0.5:
+        for n in _all_nodes(root):
+            if rng.random() < 0.35:
+                cands = [v for v in list(dict.fromkeys([i for i in n["ins"] if i is not None] + n["outs"]))
+                         if not g.values[v]["bool"]]
+                if cands:
+                    n["shard"] = rng.sample(cands, min(len(cands), rng.randrange(1, 3)))
     # const_value on values that are NOT initializers (graph inputs, node outputs at any depth) and — structural
     # graphs only, they cannot be serialised for evaluation — initializers WITHOUT const_value: irrelevant to the cut
     if rng.random() < 0.5:
@@ -429,6 +454,13 @@ class Built:
             attrs = [ir.AttrGraph(f"body{i}", s) for i, s in enumerate(subs)]
         n = ir.Node("", N["op"], [None if i is None else self.vals[i] for i in N["ins"]], attrs,
                     outputs=[self.vals[o] for o in N["outs"]], name=f"n{N['nid']}")
+        for vid in N.get("shard", []):
+            # multi-device annotation through the public API (Node.shard only accepts the node's own
+            # inputs/outputs): a ShardingSpec holds a reference to the Value object
+            if getattr(self, "_mdcfg", None) is None:
+                from onnx_ir import _multi_device as md
+                self._mdcfg = md.ModelConfiguration(name="tp", num_devices=2)
+            n.shard(self.vals[vid], configuration=self._mdcfg, axis=0, num_shards=2, device_indices=(0, 1))
         self.nodes[N["nid"]] = n
         return n
 
@@ -486,6 +518,10 @@ def _objects(graph) -> set[int]:
             for v in itertools.chain(n.inputs, n.outputs):
                 if v is not None:
                     seen.add(id(v))
+            for conf in getattr(n, "device_configurations", ()) or ():
+                for sp in conf.sharding_specs:      # ShardingSpec.value is a reference to a Value object
+                    if sp.value is not None:
+                        seen.add(id(sp.value))
             for a in n.attributes.values():
                 if a.type.name == "GRAPH":
                     go(a.as_graph())
@@ -521,6 +557,8 @@ def run_extract(B: Built, src: dict, inputs: list, outputs: list, want_graph: bo
            "in_names": [B.code(v.name) for v in res.inputs],
            "out_names": [B.code(v.name) for v in res.outputs],
            "in_strs": [v.name for v in res.inputs], "out_strs": [v.name for v in res.outputs]}
+    obs["sharding_specs"] = sum(len(conf.sharding_specs) for n in B.ir.traversal.RecursiveGraphIterator(res)
+                                for conf in (n.device_configurations or ()))
     src_objs = _objects(B.root) | {id(v) for v in B.vals.values()}
     obs["shared_objects"] = len(_objects(res) & src_objs)
     if want_graph:
@@ -945,9 +983,77 @@ def parse_case_output(out: str, ngroups: int):
 
 # =========================================================================== driving one graph
 
-def explore_graph(ck, spec: dict, cuts: list[dict], judge: bool = True) -> dict:
-    """Run the implementation on every cut of one generated graph, judge with the oracle."""
+def gen_edit(spec: dict, rng) -> dict | None:
+    """An edit of a nested body that changes what it reads from the main graph: input k of a node inside a body
+    (any depth) of main-graph node i is replaced by a main-graph value defined before node i."""
+    root = spec["root"]
+    cands = []
+    for i, n in enumerate(root["nodes"]):
+        if not n["subs"]:
+            continue
+        avail = [v for v in root["inputs"] + root["inits"] + [o for m in root["nodes"][:i] for o in m["outs"]]
+                 if not spec["values"][str(v)]["bool"]]
+        for s_ in n["subs"]:
+            for m in _all_nodes(s_):
+                if m["op"] == "If":
+                    continue
+                for k, old in enumerate(m["ins"]):
+                    new = [v for v in avail if v != old]
+                    if old is not None and new:
+                        cands.append({"top": n["nid"], "nid": m["nid"], "k": k, "new": rng.choice(new)})
+    return rng.choice(cands) if cands else None
+
+
+def apply_edit_spec(spec: dict, edit: dict) -> dict:
+    s2 = json.loads(json.dumps(spec))
+    for n in _all_nodes(s2["root"]):
+        if n["nid"] == edit["nid"]:
+            old = n["ins"][edit["k"]]
+            n["ins"][edit["k"]] = edit["new"]
+            if old in n.get("shard", []) and old not in n["ins"] + n["outs"]:
+                n["shard"] = [v for v in n["shard"] if v != old]     # replace_input_with drops the spec
+    return s2
+
+
+def apply_edit_live(B: "Built", edit: dict, spec2: dict) -> None:
+    """The same edit on the live objects, through the public mutator."""
+    B.nodes[edit["nid"]].replace_input_with(edit["k"], B.vals[edit["new"]])
+    B.spec = spec2
+    B._srcvals = None
+
+
+def history_cuts(spec: dict, rng, edit: dict, n_random: int) -> list[dict]:
+    root = spec["root"]
+    G = {"kind": "graph"}
+    ins = [v for v in root["inputs"]]
+    full = {"src": G, "inputs": [["o", v] for v in ins], "outputs": [["o", v] for v in root["outputs"]]}
+    top = next(n for n in root["nodes"] if n["nid"] == edit["top"])
+    tgt = {"src": G, "inputs": [mk_ref(spec, v, True) for v in ins], "outputs": [mk_ref(spec, top["outs"][0], True)]}
+    return [full, tgt] + gen_cuts(spec, rng, n_random, exhaustive=False)
+
+
+def explore_history(ck, spec: dict, rng) -> list[dict]:
+    """extract ... -> edit a nested body's captures on the SAME objects -> extract again; every extraction (and
+    the capture analysis) is compared with the model / oracle on the structure current at that moment."""
+    edit = gen_edit(spec, rng)
+    if edit is None:
+        return [explore_graph(ck, spec, gen_cuts(spec, rng, 10, exhaustive=False))]
     B = Built(spec)
+    pre = history_cuts(spec, rng, edit, 4)
+    g1 = explore_graph(ck, spec, pre, B=B)
+    spec2 = apply_edit_spec(spec, edit)
+    apply_edit_live(B, edit, spec2)
+    g2 = explore_graph(ck, spec2, history_cuts(spec2, rng, edit, 10), B=B)
+    hist = {"spec0": spec, "pre_cuts": pre, "edit": edit}
+    g2["history"] = hist
+    for f in g2["oracle_failures"]:
+        f["history"] = hist
+    return [g1, g2]
+
+
+def explore_graph(ck, spec: dict, cuts: list[dict], judge: bool = True, B: "Built | None" = None) -> dict:
+    """Run the implementation on every cut of one generated graph, judge with the oracle."""
+    B = B if B is not None else Built(spec)
     before = snapshot(B)
     heap = B.heap()
     an = run_analyze(B)
@@ -974,6 +1080,9 @@ def explore_graph(ck, spec: dict, cuts: list[dict], judge: bool = True) -> dict:
             ck.hist("source_kinds", c["src"]["kind"])
             if obs["kind"] == "ok" and obs["nodes"]:
                 ck.nontriv((spec["root"], c))
+            if obs["kind"] == "ok" and obs.get("sharding_specs"):
+                ck.hist("sharding", "extracted graphs carrying ShardingSpecs")
+                ck.hist("sharding", "ShardingSpec references checked", obs["sharding_specs"])
     if snapshot(B) != before:
         group["oracle_failures"].append({"what": "extract", "cut": None,
                                          "failures": ["extract/analyze mutated the source graph"]})
@@ -1001,9 +1110,11 @@ def run_groups(ck, groups: list[dict], tag: str) -> list[dict]:
         for k, idxs in enumerate(ext):
             for j in idxs:
                 c, o = chunk[k]["cuts"][j]
-                mism.append({"what": "extract", "spec": chunk[k]["spec"], "cut": c, "impl": o})
+                mism.append({"what": "extract", "spec": chunk[k]["spec"], "cut": c, "impl": o,
+                             "history": chunk[k].get("history")})
         for k in an:
-            mism.append({"what": "analyze", "spec": chunk[k]["spec"], "impl": chunk[k]["an"]})
+            mism.append({"what": "analyze", "spec": chunk[k]["spec"], "impl": chunk[k]["an"],
+                         "history": chunk[k].get("history")})
     return mism
 
 
@@ -1064,9 +1175,21 @@ def _cut_ok_for(spec: dict, cut: dict) -> bool:
     return True
 
 
-def judge_case(spec: dict, cut: dict | None) -> list[str]:
+def build_with_history(spec: dict, history: dict | None) -> "Built":
+    """The live objects for `spec`; with a history: built from the earlier structure, the earlier extractions
+    run on them, then the edit applied (same process, same Graph/Node objects)."""
+    if not history:
+        return Built(spec)
+    B = Built(history["spec0"])
+    for c in history["pre_cuts"]:
+        run_extract(B, c["src"], c["inputs"], c["outputs"])
+    apply_edit_live(B, history["edit"], spec)
+    return B
+
+
+def judge_case(spec: dict, cut: dict | None, history: dict | None = None) -> list[str]:
     """Oracle verdict for one (graph, cut) — or the capture analysis when cut is None — on the implementation."""
-    B = Built(spec)
+    B = build_with_history(spec, history)
     if cut is None:
         return oracle_analyze(spec, run_analyze(B))
     obs = run_extract(B, cut["src"], cut["inputs"], cut["outputs"], want_graph=True)
@@ -1109,6 +1232,23 @@ def report_oracle_failure(ck, spec: dict, f: dict, extra: dict | None = None) ->
     cut = f.get("cut")
     if f["what"] == "extract" and cut is None:
         ck.violation({"kind": "oracle", "what": "source mutated", "spec": spec, "failures": f["failures"]})
+        return
+    hist = f.get("history")
+    if hist:
+        # history-dependent failure: keep the structure, minimise the earlier extractions
+        for c in hist["pre_cuts"]:
+            h1 = dict(hist, pre_cuts=[c])
+            if judge_case(spec, cut, h1):
+                hist = h1
+                break
+        if not judge_case(spec, cut, hist) and judge_case(spec, cut):
+            hist = None                      # fails without any history: report it as an ordinary case
+    if hist:
+        rp = {"kind": "oracle", "what": f["what"], "spec": spec, "cut": cut, "history": hist,
+              "failures": judge_case(spec, cut, hist), "broken": ck.broken_items}
+        if extra:
+            rp.update(extra)
+        ck.violation(rp)
         return
     s2, c2 = shrink(spec, cut)
     rp = {"kind": "oracle", "what": f["what"], "spec": s2, "cut": c2, "failures": judge_case(s2, c2),
@@ -1215,6 +1355,18 @@ def run(ck) -> None:
             groups = []
     flush(groups, "cases_last")
     groups = []
+    # histories: extract -> edit a nested body's captures on the same objects -> extract again
+    n_hist = 36 if not ck.thorough else 700
+    for i in range(n_hist):
+        spec = gen_spec(ck.rng, "numeric" if i % 2 == 0 else "structural", ck.rng.choice([1, 1, 2]))
+        gs = explore_history(ck, spec, ck.rng)
+        ck.hist("inputs", "history" if len(gs) == 2 else "history:no-body-to-edit")
+        groups.extend(gs)
+        if len(groups) >= 240:
+            flush(groups, f"hist{i}")
+            groups = []
+    flush(groups, "hist_last")
+    groups = []
     ck.coverage["traces_validated_against_impl"] = validated
     for m in mism[:5]:
         ck.broken(f"correspondence:{m['what']}",
@@ -1237,10 +1389,11 @@ def run(ck) -> None:
     # 5. broken but no concrete input yet: oracle on the diverging cases first, then fresh search
     if ck.broken_items and not ck.violations:
         for m in mism[:20]:
-            bad = judge_case(m["spec"], m.get("cut"))
+            bad = judge_case(m["spec"], m.get("cut"), m.get("history"))
             if bad:
                 report_oracle_failure(ck, m["spec"], {"what": m["what"] if m.get("cut") else "analyze",
-                                                      "cut": m.get("cut"), "failures": bad},
+                                                      "cut": m.get("cut"), "failures": bad,
+                                                      "history": m.get("history")},
                                       {"found_by": "diverging case"})
                 break
         else:
@@ -1256,8 +1409,10 @@ def replay(rp: dict) -> int:
               json.dumps(rp.get("broken"), indent=1)[:3000])
         return 1
     cut = rp.get("cut")
-    bad = judge_case(spec, cut)
-    B = Built(spec)
+    bad = judge_case(spec, cut, rp.get("history"))
+    B = build_with_history(spec, rp.get("history"))
     obs = run_analyze(B) if cut is None else run_extract(B, cut["src"], cut["inputs"], cut["outputs"])
-    print(json.dumps({"graph": spec["root"], "cut": cut, "observed": obs, "failures": bad}, indent=1, default=str))
+    print(json.dumps({"graph": spec["root"], "history": rp.get("history") and
+                      {"edit": rp["history"]["edit"], "earlier_extractions": rp["history"]["pre_cuts"]},
+                      "cut": cut, "observed": obs, "failures": bad}, indent=1, default=str))
     return 1 if bad else 0
